@@ -176,6 +176,18 @@ func main() {
 				emit(codec.RunDamage(o.ID+"/dmg", &dmgTmpl[i].M, o.Wire.Bytes(), *fullDamage))
 			}
 		}
+		if has("reuse") {
+			for i := 0; i < *n; i++ {
+				c := g.RandomCase(i%2 == 0, false)
+				obs, err := codec.RunReuse(c, g.R.Intn(1000), func(ty string) []byte { return g.RandValue(ty) })
+				if err != nil {
+					fatal(err)
+				}
+				for _, o := range obs {
+					emit(o)
+				}
+			}
+		}
 		if has("fix44") {
 			if len(fix44reg.All) == 0 {
 				fatal(fmt.Errorf("fix44 registry is empty (reg_gen.go not generated)"))
